@@ -188,7 +188,26 @@ def classify_old(sec):
     r["time"] = round(t, 1) if t else None
     real, soft = [], []
     n = 0
+    # a result entry may wrap over several lines (long cover conditions): join them first
+    joined, buf = [], None
     for line in sec.splitlines():
+        if buf is not None:
+            if line.startswith("["):
+                joined.append(buf)
+                buf = None
+            else:
+                buf += " " + line.strip()
+                if OLD_LINE.match(buf):
+                    joined.append(buf)
+                    buf = None
+                continue
+        if line.startswith("[") and not OLD_LINE.match(line):
+            buf = line
+        else:
+            joined.append(line)
+    if buf is not None:
+        joined.append(buf)
+    for line in joined:
         m = OLD_LINE.match(line)
         if not m:
             continue
